@@ -70,6 +70,8 @@ pub struct GeneratorState<'a> {
     tmp_in_use: bool,
     whitespaces_regex: Regex,
     deferred_plusplus: Vec<(ExprType, usize, bool)>,
+    y_saved_before_condition: bool,
+    deferred_before_condition: usize,
     pub current_bank: u32,
     pub functions_code: HashMap<String, AssemblyCode>,
     pub functions_call_tree: HashMap<String, Vec<String>>,
